@@ -163,7 +163,7 @@ def run(ctx):
                           obligation="correspondence:" + fam, no_input=True)
     ctx.trusted.append("translator harness/src/tr/glu_std.rs (gluon_parser AST -> Gallina): name mapping Cons/Nil, Some/None, LT/EQ/GT, True/False; "
                        "`<>` at List resolves to std/list.glu's local semigroup.append; `compare` is the [Ord _] implicit")
-    ctx.trusted.append("harness/src/bin/c19.rs: generators, Gluon driver functions, value canonicaliser, Rust-std oracles; coq/extract/c19/driver.ml decimal/byte conversions")
+    ctx.trusted.append("harness/src/bin/c19/{main,strs,derive,json}.rs: generators, Gluon driver functions, value canonicaliser, Rust-std oracles; coq/extract/c19/driver.ml decimal/byte conversions")
     ctx.assumptions.append("`compare` is a total order up to its own equivalence (ord_ok): explicit premise of the map/sort theorems; the tie instantiates it with Int")
     ctx.assumptions.append("implicit-argument resolution and the evaluation of the translated functions by the real VM are covered by the correspondence, not by the translator")
     if ran:
